@@ -34,14 +34,28 @@ class Conversions(Contract):
                     if vdtype == 'int' and f > 0:
                         continue      # representation invariant: an integer value dtype never coexists with fraction bits
                     yield dict(fmt=[s, n, f], shape=shape, vdtype=vdtype)
+        # objects BUILT (not pre-fabricated) from containers whose NumPy dtype is a non-default integer: the value type must
+        # still end up consistent with the fraction bits
+        for (s, n, f) in [(True, 8, 4), (False, 8, 2), (True, 24, 12)]:
+            for carrier in ('nplist:int32', 'nplist:uint8', 'arr:int16'):
+                yield dict(fmt=[s, n, f], shape=[2], vdtype='float', built_from=carrier)
 
     def inputs(self, cfg, D):
         s, n, f = cfg['fmt']
+        if cfg.get('built_from'):
+            hi_k = min(100, ((1 << (n - 1 - f)) - 1) if s else ((1 << (n - f)) - 1))
+            ks = [D.int('k%d' % i, 0 if (not s or 'uint' in cfg['built_from']) else -hi_k, hi_k) for i in range(2)]
+            return {'k': ks, 'c': [k * (1 << f) for k in ks]}
         return {'c': codes_in(D, 'c', nelem(cfg['shape']), s, n)}
 
     def run(self, cfg, P, inp):
         s, n, f = cfg['fmt']
-        x = make_fxp(P, s, n, f, codes=inp['c'], shape=tuple(cfg['shape']), vdtype=float if cfg['vdtype'] == 'float' else int)
+        if cfg.get('built_from'):
+            kind, dt = cfg['built_from'].split(':')
+            car = [P.npscalar(k, dt) for k in inp['k']] if kind == 'nplist' else P.arr(inp['k'], dtype=dt, shape=(2,))
+            x = P.Fxp(car, s, n, f)
+        else:
+            x = make_fxp(P, s, n, f, codes=inp['c'], shape=tuple(cfg['shape']), vdtype=float if cfg['vdtype'] == 'float' else int)
         o = {'get_val': x.get_val(), 'as_float': x.astype(float), 'as_int': x.astype(int), 'raw': x.raw(), 'uraw': x.uraw(),
              'call': x()}
         if cfg['shape'] == []:
